@@ -432,7 +432,19 @@ func runTurnCred(c *Ctx) {
 			}
 			nsum++
 			key := fmt.Sprintf("turn-cred/mac-fresh/%s#%d", f.Name, nsum)
-			macObj := ObjOf(info, sel.X)
+			// a local, a parameter, or a field of the issuer (t.mac): the field's object stands for it
+			objOrField := func(inf *types.Info, e ast.Expr) types.Object {
+				if o := ObjOf(inf, e); o != nil {
+					return o
+				}
+				if fs, ok := ast.Unparen(e).(*ast.SelectorExpr); ok {
+					if v, ok := inf.Uses[fs.Sel].(*types.Var); ok && v.IsField() {
+						return v
+					}
+				}
+				return nil
+			}
+			macObj := objOrField(info, sel.X)
 			if macObj == nil {
 				c.Unknown(key, call.Pos(), "cannot identify the MAC object "+types.ExprString(sel.X))
 				return
@@ -443,14 +455,14 @@ func runTurnCred(c *Ctx) {
 					switch v := m.(type) {
 					case *ast.AssignStmt:
 						for i, l := range v.Lhs {
-							if ObjOf(g.Info(), l) == macObj && i < len(v.Rhs) {
+							if objOrField(g.Info(), l) == macObj && i < len(v.Rhs) {
 								if nc, ok := ast.Unparen(v.Rhs[i]).(*ast.CallExpr); ok && calleeIs(g.Info(), nc, "crypto/hmac", "New") {
 									hit = true
 								}
 							}
 						}
 					case *ast.CallExpr:
-						if s2, ok := ast.Unparen(v.Fun).(*ast.SelectorExpr); ok && s2.Sel.Name == "Reset" && ObjOf(g.Info(), s2.X) == macObj {
+						if s2, ok := ast.Unparen(v.Fun).(*ast.SelectorExpr); ok && s2.Sel.Name == "Reset" && objOrField(g.Info(), s2.X) == macObj {
 							hit = true
 						}
 					}
